@@ -425,3 +425,14 @@ func RetVal(ret *ssa.Return, i int) ssa.Value {
 
 // RetErr is the error operand (last result) of a Return, spill-resolved.
 func RetErr(ret *ssa.Return) ssa.Value { return RetVal(ret, len(ret.Results)-1) }
+
+// ReturnsError reports whether a function has a result of type error.
+func ReturnsError(f *ssa.Function) bool {
+	res := f.Signature.Results()
+	for i := 0; i < res.Len(); i++ {
+		if IsErrorType(res.At(i).Type()) {
+			return true
+		}
+	}
+	return false
+}
